@@ -139,6 +139,12 @@ class FnTranslator:
             if isinstance(e.op, ast.Not):
                 return f"(!{self.truth(a, ta)})", "Bool"
             raise Unsupported(f"unary {type(e.op).__name__}")
+        if isinstance(e, ast.Compare) and len(e.ops) == 1 and isinstance(e.ops[0], (ast.Is, ast.IsNot)) and isinstance(e.comparators[0], ast.Constant) and e.comparators[0].value is None:
+            # `x is None` / `x is not None` on an Option-like leaf supplied by the caller as a Bool "is some"
+            a, ta = self.expr(e.left, env)
+            if ta != "IsSome":
+                raise Unsupported("`is None` on a value that is not declared optional")
+            return (f"(!{a})" if isinstance(e.ops[0], ast.Is) else a), "Bool"
         if isinstance(e, ast.Compare):
             parts = []
             left = e.left
@@ -172,6 +178,25 @@ class FnTranslator:
         if isinstance(e, ast.List) and not e.elts:
             return "[]", ("list", None)
         if isinstance(e, ast.Call) and isinstance(e.func, ast.Name) and not e.keywords:
+            if (
+                e.func.id in ("all", "any")
+                and len(e.args) == 1
+                and isinstance(e.args[0], ast.GeneratorExp)
+                and len(e.args[0].generators) == 1
+                and not e.args[0].generators[0].ifs
+                and isinstance(e.args[0].generators[0].target, ast.Name)
+            ):
+                # all(ELT for x in XS) / any(…)  ->  XS.all (fun x => ELT)
+                g = e.args[0].generators[0]
+                xs, txs = self.expr(g.iter, env)
+                rt = self.resolve(txs)
+                if rt[0] != "list":
+                    raise Unsupported("all/any over a non-list")
+                x = g.target.id
+                env2 = dict(env)
+                env2[x] = (x, rt[1])
+                elt = self.truth(*self.expr(e.args[0].elt, env2))
+                return f"(({xs}).{e.func.id} (fun {x} => {elt}))", "Bool"
             if e.func.id == "len" and len(e.args) == 1:
                 a, ta = self.expr(e.args[0], env)
                 if self.resolve(ta)[0] != "list":
@@ -387,10 +412,10 @@ class FnTranslator:
         return text
 
 
-def translate_expr(e: ast.expr, names: dict):
+def translate_expr(e: ast.expr, names: dict, env: dict | None = None):
     """Translate one boolean/int expression with an explicit leaf mapping
     (source text of a sub-expression -> (lean, type)).  Used for decision expressions that are
     extracted from larger, otherwise untranslatable methods."""
     t = FnTranslator.__new__(FnTranslator)
     t.aliases, t.subst = {}, names
-    return t.expr(e, {})
+    return t.expr(e, dict(env or {}))
